@@ -3,6 +3,7 @@ import os, importlib.util
 
 ID = "C12"
 PROPS = "Props/C12.v"
+COQ_TIMEOUT = 5400   # Coq build of this property incl. rebuilt dependencies; generous: on a loaded machine a rebuild after an upstream edit took > 1500 s
 GEN = ["sm4tables", "sm4consts"]
 LEGS = [{"driver": "c12", "runner": ("sm4gcm", "Extract/ExtractSM4GCM.v", "Sm4gcm_model")}]
 
